@@ -225,6 +225,11 @@ def run(pid, tier):
         events += st["events"]
         extra["dictionary_programs"] = st["programs"]
 
+    if os.environ.get("VERIF_DUMP_KNOWN"):
+        for b in allbad:
+            sg = dict(b.get("_sig") or {"sec": sec_class(b["sec"]), "why": b["why"], "ev": b["ev"]}, p=pid)
+            f = vlib.match_finding(V.findings, pid, sg)
+            vlib.dump_known(f["id"] if f else "-", pid, sg)
     seen = {}
     for b in allbad:
         sig = b.get("_sig") or {"sec": sec_class(b["sec"]), "why": b["why"], "ev": b["ev"]}
